@@ -14,7 +14,7 @@ def dfltNode (d : Option Nat) (k : Nat) : Nat :=
   | some x => x
   | none => k
 
-theorem tr_switch (fuel : Nat) (env : Src.Env) (he : PlainEnv env) (hdr : Ev) (CS : Src.Cases) (k : Nat) (b : Src.B) :
+theorem tr_switch (fuel : Nat) (env : Src.Env) (he : EnvOK cx env) (hdr : Ev) (CS : Src.Cases) (k : Nat) (b : Src.B) :
     Src.tr fuel [] env (.switch hdr CS) k b =
       ((Src.trCases fuel [] (brkEnv env k) CS k (tbl b).length (b.push (.halt (evInvalid "switch default"))).1).1.set (tbl b).length
         (.silent (dfltNode (Src.trCases fuel [] (brkEnv env k) CS k (tbl b).length (b.push (.halt (evInvalid "switch default"))).1).2.2.2 k))).push
@@ -35,7 +35,7 @@ theorem switchHdrOp_shape {hdr : Hdr} {s : St} {o : Op} {s' : St} (h : switchHdr
   · obtain ⟨rfl, rfl⟩ := genOp_spec h
     exact ⟨sameStk_tickedOp _ _, _, rfl⟩
 
-theorem switch_pm (cx : Cx) (fuel : Nat) (env : Src.Env) (he : PlainEnv env) (hdr : Hdr) (cs : Cases)
+theorem switch_pm (cx : Cx) (fuel : Nat) (env : Src.Env) (he : EnvOK cx env) (hdr : Hdr) (cs : Cases)
     (run : Nat → List BP → SwSt → M SwSt) (hn : nameOK hdr.name = true) (hne : Beh.endsFlow hdr.name = false) (hcs : cs ≠ .nil)
     (hdef : countDefaults cs ≤ 1) (hrun : CasesC cx fuel hdr.name cs run) :
     PM cx (switchOf hdr cs run) (fun k b => Src.tr fuel [] env (.switch (hdrEv hdr) (toSrcCases hdr.name cs)) k b) env := by
@@ -87,21 +87,21 @@ theorem switch_pm (cx : Cx) (fuel : Nat) (env : Src.Env) (he : PlainEnv env) (hd
   have nnD' : NoNone D := nnD nn0
   generalize hEL : (s.tickedLbl 1).lbc + 1 = eL at *
   have htr := fun k b => tr_switch fuel env he (hdrEv hdr) (toSrcCases hdr.name (.cons d0 n0 ps0 b0 r0)) k b
-  have hgrow : ∀ k b, Grow b (Src.tr fuel [] env (.switch (hdrEv hdr) (toSrcCases hdr.name (.cons d0 n0 ps0 b0 r0))) k b).1 := by
+  have hgrow : ∀ k b, Grow cx.Z b (Src.tr fuel [] env (.switch (hdrEv hdr) (toSrcCases hdr.name (.cons d0 n0 ps0 b0 r0))) k b).1 := by
     intro k b
     rw [htr]
     exact (((Grow.push b _).trans (hS.grow k _ _)).set_ge (Nat.le_refl _) _).trans (Grow.push _ _)
   have hfalls : falls ([LItem.op ⟨o0, hdr.name, hdr.params⟩] ++ Hn ++ [LItem.label (s.lbc + 1) false] ++ D ++ Cn ++ [LItem.label eL false]) = true :=
     falls_snoc_label _ _ _
   simp only [nameOK, Bool.and_eq_true, Bool.not_eq_true'] at hn
-  refine ⟨hstk.1, hstk.2, lastNotCtx_snoc_label _ _ _, ?_, ?_, ?_, hgrow, ?_⟩
+  refine ⟨hstk.1, hstk.2, hstk.3, lastNotCtx_snoc_label _ _ _, ?_, ?_, ?_, hgrow, ?_⟩
   · refine (((((?_ : NoNone [LItem.op ⟨o0, hdr.name, hdr.params⟩]).append nnH).append (noNone_label _ _)).append nnD').append nnC).append (noNone_label _ _)
     intro x hx root e; simp at hx; subst hx; cases e
   · intro h0; simp at h0
   · intro l hl'
     simp only [List.append_assoc, List.cons_append, List.nil_append, loneJump_cons_op] at hl'
     cases hl'
-  intro r i0 hp hpre k b hag m j hex hcont
+  intro r i0 hp hpre k b hag m j hex hin hcont
   have hend := hcont hfalls
   rw [htr] at hag ⊢
   have gT := hS.grow k (tbl b).length (b.push (.halt (evInvalid "switch default"))).1
@@ -116,11 +116,11 @@ theorem switch_pm (cx : Cx) (fuel : Nat) (env : Src.Env) (he : PlainEnv env) (hd
   -- the node table
   obtain ⟨a1, a2⟩ := tbl_push (T.1.set (tbl b).length (.silent (dfltNode T.2.2.2 k))) (.emit (hdrEv hdr) T.2.2.1)
   have hlen3 : (tbl (T.1.set (tbl b).length (.silent (dfltNode T.2.2.2 k)))).length = (tbl T.1).length := by rw [tbl_set]; simp
-  have g3 : Grow b (T.1.set (tbl b).length (.silent (dfltNode T.2.2.2 k))) := ((Grow.push b _).trans gT).set_ge (Nat.le_refl _) _
+  have g3 : Grow cx.Z b (T.1.set (tbl b).length (.silent (dfltNode T.2.2.2 k))) := ((Grow.push b _).trans gT).set_ge (Nat.le_refl _) _
   have hNe : cx.N[(tbl T.1).length]? = some (.emit (hdrEv hdr) T.2.2.1) := by
-    rw [hag _ (by rw [← hlen3]; exact g3.len) (by rw [a1]; simp [hlen3]), a1, ← hlen3]
+    rw [hag.2 _ (by rw [← hlen3]; exact g3.len) (by rw [a1]; simp [hlen3]), a1, ← hlen3]
     simp
-  have ag3 : AgreeOn cx.N b (T.1.set (tbl b).length (.silent (dfltNode T.2.2.2 k))) := hag.sub_grow (Grow.refl b) (Grow.push _ _)
+  have ag3 : AgreeOn cx.N cx.Z b (T.1.set (tbl b).length (.silent (dfltNode T.2.2.2 k))) := hag.sub_grow (Grow.refl b) (Grow.push _ _)
   obtain ⟨hNnt, agT⟩ := agree_set ag3 gT
   rw [a2, hlen3]
   -- positions
@@ -142,11 +142,11 @@ theorem switch_pm (cx : Cx) (fuel : Nat) (env : Src.Env) (he : PlainEnv env) (hd
     rw [LPos.next_eq r _ (i0 + (Hn.length + D.length + Cn.length + 3)) (by omega)]; exact hend
   have hbrk : R2 cx m j (target cx.rs eL) k := by rw [htgtE]; exact hendC
   have hexC : ExitsOK cx m j (s5.pushCase eL) (brkEnv env k) := by
-    refine ⟨fun cl bl rest hs => hex.loop cl bl rest (by rw [← hL5]; exact hs), fun e rest hs => ?_⟩
+    refine ⟨fun cl bl rest hs => hex.loop cl bl rest (by rw [← hL5]; exact hs), fun e rest hs => ?_, hex.labs⟩
     simp only [St.pushCase, List.cons.injEq] at hs
     obtain ⟨rfl, _⟩ := hs
     exact ⟨k, rfl, hbrk⟩
-  obtain ⟨tP, _, dP⟩ := cT _ hpH hpC agT m j (s5.pushCase eL) rfl rfl hexC hendC
+  obtain ⟨tP, _, dP, xP⟩ := cT _ hpH hpC agT m j (s5.pushCase eL) rfl rfl hexC hin hendC
   -- behind the header jumps: the default ops
   have hnt : R2 cx m j ⟨r, i0 + 1 + Hn.length⟩ (tbl b).length := by
     refine R2.silL (lab_label hitD) ?_
@@ -177,6 +177,9 @@ theorem switch_pm (cx : Cx) (fuel : Nat) (env : Src.Env) (he : PlainEnv env) (hd
   simp only [hne, Bool.false_and, Bool.false_eq_true, if_false] at hstep
   have hev : (⟨hdr.name, convParams hdr.params⟩ : Ev) = hdrEv hdr := rfl
   rw [hev, LPos.next_eq r i0 (i0 + 1) rfl] at hstep
-  exact R2.emit hstep (nodeStep_of hNe) hfirst.1
+  refine ⟨R2.emit hstep (nodeStep_of hNe) hfirst.1, ?_⟩
+  have hpush := Pushes.push b (.halt (evInvalid "switch default"))
+  refine LabExport.mono xP hpush.len (fun i hi => hpush.same hi) (fun i hi => ?_)
+  rw [(Pushes.push _ _).same (by rw [hlen3]; have := gT.len; have := hpush.len; omega), tbl_set, List.getElem?_set_ne (by omega)]
 
 end ESV.Comp
